@@ -249,6 +249,6 @@ func handoffScenarios() []schedx.Scenario {
 	add("cancel-vs-fail-then-next", hparams{Callers: [][]hreq{{{ID: "r1", Cancel: true, Fail: true}, {ID: "r2"}}}}, b2, b3, false)
 	add("two-callers-one-cancelled", hparams{Callers: [][]hreq{{{ID: "r1", Cancel: true}}, {{ID: "r2"}}}}, b1, b2, false)
 	add("fail-then-next", hparams{Callers: [][]hreq{{{ID: "r1", Fail: true}, {ID: "r2"}}}}, b2, b3, false)
-	add("cancel-cancel-next", hparams{Callers: [][]hreq{{{ID: "r1", Cancel: true}, {ID: "r2", Cancel: true}, {ID: "r3"}}}}, b1, b2, false)
+	add("cancel-cancel-next", hparams{Callers: [][]hreq{{{ID: "r1", Cancel: true}, {ID: "r2", Cancel: true}, {ID: "r3"}}}}, xplore.Bounds{0, 0, 1, 0}, b1, false)
 	return out
 }
